@@ -91,7 +91,7 @@ func c05Run(in V) V {
 				}
 			}
 		case 1:
-			bs := AsBytes(op[1])
+			bs := append([]byte(nil), AsBytes(op[1])...) // private copy: it is scribbled over below
 			n, err := w.WriteBinary(bs)
 			ecls = c05cls(err)
 			if err == nil {
@@ -344,6 +344,7 @@ func c05Gen(g *Gen) {
 			def("size", []c05p{{'M', 10}, {'M', n}, {'W', 3}}, pol, 0)
 			if n >= 0 {
 				def("size", []c05p{{'W', 10}, {'W', n}, {'M', 3}}, pol, 0)
+				def("size", []c05p{{'W', n}, {'M', 1}}, pol, 0)
 			}
 		}
 	}
